@@ -38,9 +38,6 @@ Definition ahdr (hp : hpack_state) (hf : field) (store : bool) : bytes * hpack_s
   let '(x, hp') := afield hp1 hf store in
   (aupd hp ++ x, hp').
 
-Lemma with_pending_id hp : h_pending hp = false -> with_pending hp false = hp.
-Proof. destruct hp; cbn. intros ->. reflexivity. Qed.
-
 (* AppendHeader after the "if hp.pendingSizeUpdate" block *)
 Definition append_field (hp : hpack_state) (dst : bytes) (hf : field) (store : bool)
   : result (bytes * hpack_state) :=
@@ -116,6 +113,10 @@ Qed.
 (* C04_no_panic *)
 Theorem append_header_no_panic : forall st dst hf store, is_panic (append_header st dst hf store) = false.
 Proof. intros. rewrite append_header_app. reflexivity. Qed.
+
+Theorem append_header_total : forall st dst hf store,
+  exists x st', append_header st dst hf store = Ok (dst ++ x, st').
+Proof. intros st dst hf store. rewrite append_header_app. eexists; eexists; reflexivity. Qed.
 
 (* C04_append_header_prefix *)
 Theorem append_header_prefix : forall st dst hf store x st',
